@@ -8,6 +8,15 @@
 //!   print.log            iteration column / extra line / footer of a whole solve vs the skeleton
 //!   print.targets        implementation-only: buffer = stream = file, table and header vs solver
 //!   print.stdout         implementation-only, in a child process: stdout with verbose on / off
+//!   print.configuration  `print_configuration` incl. `print_settings`, `print_nthreads`,
+//!                        `_get_precision_string`, `print_chordal_decomposition` vs `Print.printConfiguration`
+//!                        (summary computed by the model of `DefaultProblemData::new`, or passed in)
+//!   print.status_header  `print_status_header` vs `Print.printStatusHeader`
+//!   print.footer_full    `print_footer` (all three lines) vs `Print.printFooter`
+//!   print.whole          the whole log of a real solve vs `Print.wholeLog` (banner, header, rows, footer)
+//!   print.write_impl     `impl Write for PrintTarget` driven with write / write_all / flush against a
+//!                        scripted sink (short writes, Interrupted, errors, Ok(0)) vs `Print.Target.run`
+//!   print.target_kind    `impl Debug / Clone for PrintTarget` vs `Print.Target.debugName / clone`
 #![allow(non_snake_case)]
 #![allow(dead_code)]
 use vharness::*;
@@ -16,6 +25,8 @@ use vharness::*;
 #[allow(unused_imports)]
 mod c04;
 use c04::common::*;
+#[path = "common_cones.rs"]
+mod common_cones;
 
 use clarabel::algebra::*;
 use clarabel::io::ConfigurablePrintTarget;
@@ -458,6 +469,627 @@ fn run_stdout(r: &Req) -> String {
     format!("done status={:?}", solver.solution.status)
 }
 
+
+// ================================================================ round 3: header / footer / Write impl
+
+use clarabel::solver::implementations::default::verif_problemdata_header as hdr_hooks;
+
+fn hexb(b: &[u8]) -> String {
+    if b.is_empty() {
+        return "-".into();
+    }
+    b.iter().map(|x| format!("{:02x}", x)).collect()
+}
+fn unhexb(h: &str) -> Vec<u8> {
+    if h == "-" {
+        return vec![];
+    }
+    (0..h.len() / 2).map(|i| u8::from_str_radix(&h[2 * i..2 * i + 2], 16).unwrap()).collect()
+}
+
+// ---- the echoed settings on the wire ------------------------------------------------------------
+
+fn echo_su(s: &DefaultSettings<f64>) -> Vec<usize> {
+    vec![s.max_iter as usize, s.iterative_refinement_max_iter as usize, s.equilibrate_max_iter as usize]
+}
+fn echo_sb(s: &DefaultSettings<f64>) -> Vec<bool> {
+    vec![s.static_regularization_enable, s.dynamic_regularization_enable, s.iterative_refinement_enable,
+        s.equilibrate_enable, s.chordal_decomposition_compact, s.chordal_decomposition_complete_dual]
+}
+fn echo_sf(s: &DefaultSettings<f64>) -> Vec<f64> {
+    vec![s.time_limit, s.max_step_fraction, s.tol_feas, s.tol_gap_abs, s.tol_gap_rel,
+        s.static_regularization_constant, s.static_regularization_proportional,
+        s.dynamic_regularization_eps, s.dynamic_regularization_delta,
+        s.iterative_refinement_reltol, s.iterative_refinement_abstol, s.iterative_refinement_stop_ratio,
+        s.equilibrate_min_scaling, s.equilibrate_max_scaling]
+}
+/// format kind of every entry of `echo_sf`: 0 `{:.1e}`, 1 `{:.3}`, 2 `{:.1}`, 3 `{:?}`
+const SF_KIND: [usize; 14] = [3, 1, 0, 0, 0, 0, 0, 0, 0, 0, 0, 2, 0, 0];
+
+fn fmt_kind(kind: usize, v: f64) -> String {
+    match kind {
+        0 => format!("{:.1e}", v),
+        1 => format!("{:.3}", v),
+        2 => format!("{:.1}", v),
+        3 => format!("{:?}", v),
+        4 => format!("{:?}", std::time::Duration::from_secs_f64(v)),
+        _ => panic!("format kind"),
+    }
+}
+
+/// the formatter table: Rust's own rendering of every float the log shows
+fn line_fmt_table(l: Line, s: &DefaultSettings<f64>, duration: Option<(f64, String)>) -> Line {
+    let mut ks: Vec<usize> = SF_KIND.to_vec();
+    let mut vs = echo_sf(s);
+    let mut ts: Vec<String> = ks.iter().zip(&vs).map(|(k, v)| hex(&fmt_kind(*k, *v))).collect();
+    if let Some((t, tok)) = duration {
+        ks.push(4);
+        vs.push(t);
+        ts.push(hex(&tok));
+    }
+    l.us("fk", &ks).fs("fv", &vs).s("ft", &ts.join(","))
+}
+
+fn line_echo(l: Line, s: &DefaultSettings<f64>, lin: &LinearSolverInfo) -> Line {
+    l.b("verbose", s.verbose)
+        .us("su", &echo_su(s))
+        .bs("sb", &echo_sb(s))
+        .fs("sf", &echo_sf(s))
+        .s("merge", &hex(&s.chordal_decomposition_merge_method))
+        .s("lname", &hex(&lin.name))
+        .u("threads", lin.threads)
+        .b("direct", lin.direct)
+}
+fn apply_echo(r: &Req, s: &mut DefaultSettings<f64>) {
+    s.verbose = r.b("verbose");
+    let su = r.us("su");
+    let sb = r.bs("sb");
+    let sf = r.fs("sf");
+    s.max_iter = su[0] as u32;
+    s.iterative_refinement_max_iter = su[1] as u32;
+    s.equilibrate_max_iter = su[2] as u32;
+    s.static_regularization_enable = sb[0];
+    s.dynamic_regularization_enable = sb[1];
+    s.iterative_refinement_enable = sb[2];
+    s.equilibrate_enable = sb[3];
+    s.chordal_decomposition_compact = sb[4];
+    s.chordal_decomposition_complete_dual = sb[5];
+    s.time_limit = sf[0];
+    s.max_step_fraction = sf[1];
+    s.tol_feas = sf[2];
+    s.tol_gap_abs = sf[3];
+    s.tol_gap_rel = sf[4];
+    s.static_regularization_constant = sf[5];
+    s.static_regularization_proportional = sf[6];
+    s.dynamic_regularization_eps = sf[7];
+    s.dynamic_regularization_delta = sf[8];
+    s.iterative_refinement_reltol = sf[9];
+    s.iterative_refinement_abstol = sf[10];
+    s.iterative_refinement_stop_ratio = sf[11];
+    s.equilibrate_min_scaling = sf[12];
+    s.equilibrate_max_scaling = sf[13];
+    s.chordal_decomposition_merge_method = unhex(r.str("merge"));
+}
+fn req_lin(r: &Req) -> LinearSolverInfo {
+    LinearSolverInfo { name: unhex(r.str("lname")), threads: r.u("threads"), direct: r.b("direct"), nnzA: 0, nnzL: 0 }
+}
+
+// ---- the summary of the internal problem, read from the live solver --------------------------------
+
+struct Summary {
+    n: usize,
+    m: usize,
+    nnz_p: usize,
+    nnz_a: usize,
+    tags: Vec<usize>,
+    numel: Vec<usize>,
+    removed: Option<usize>,
+    chordal: Option<[usize; 4]>,
+}
+fn summary_of(solver: &DefaultSolver<f64>) -> Summary {
+    let d = &solver.data;
+    // `(as_tag, numel)` of the internal cones: from the composite cone the solver iterates over
+    let tags: Vec<usize> = d.cones.iter().map(tag_index).collect();
+    let numel: Vec<usize> = solver.cones.iter().map(|c| c.numel()).collect();
+    Summary { n: d.n, m: d.m, nnz_p: d.P.colptr[d.P.n], nnz_a: d.A.colptr[d.A.n], tags, numel,
+        removed: hdr_hooks::presolve_count_reduced(d), chordal: hdr_hooks::chordal_counts(d) }
+}
+fn line_summary(l: Line, s: &Summary) -> Line {
+    let l = l.u("n", s.n).u("m", s.m).u("nnzP", s.nnz_p).u("nnzA", s.nnz_a).us("tags", &s.tags).us("numel", &s.numel);
+    let l = match s.removed { Some(k) => l.u("removed", k), None => l.s("removed", "-") };
+    match s.chordal { Some(c) => l.us("chordalc", &c), None => l.s("chordalc", "-") }
+}
+
+// ---------------------------------------------------------------- print.configuration
+
+fn req_prob9(r: &Req) -> Prob {
+    Prob { P: r.csc("P"), q: r.fs("q"), A: r.csc("A"), b: r.fs("b"), cones: common_cones::parse_cones(r.str("cones9")) }
+}
+fn line_prob9(l: Line, p: &Prob) -> Line {
+    let c = common_cones::fmt_cones(&p.cones);
+    l.csc("P", &p.P).fs("q", &p.q).csc("A", &p.A).fs("b", &p.b).s("cones9", if c.is_empty() { "" } else { &c })
+}
+fn setup_solver(p: &Prob, presolve: bool, chordal: bool) -> DefaultSolver<f64> {
+    let mut base = DefaultSettings::<f64>::default();
+    base.verbose = false;
+    base.presolve_enable = presolve;
+    base.chordal_decomposition_enable = chordal;
+    DefaultSolver::new(&p.P, &p.q, &p.A, &p.b, &p.cones, base)
+}
+fn run_configuration(r: &Req) -> String {
+    let p = req_prob9(r);
+    let mut solver = setup_solver(&p, r.b("presolve"), r.b("chordal"));
+    let mut set = DefaultSettings::<f64>::default();
+    apply_echo(r, &mut set);
+    solver.info.linsolver = req_lin(r);
+    solver.info.print_to_buffer();
+    solver.info.print_configuration(&set, &solver.data, &solver.cones).unwrap();
+    format!("s={}", hex(&solver.info.get_print_buffer().unwrap()))
+}
+
+/// token after `label` up to the next ',' / end of line
+fn after<'a>(line: &'a str, label: &str) -> Result<&'a str, String> {
+    let i = line.find(label).ok_or_else(|| format!("no `{}` in `{}`", label, line))?;
+    let rest = &line[i + label.len()..];
+    Ok(rest.split(',').next().unwrap().trim())
+}
+fn parse_tok(t: &str) -> Result<f64, String> {
+    t.parse::<f64>().map_err(|_| format!("`{}` is not a number", t))
+}
+/// the shown token is the field rounded to the precision of its format
+fn shows(t: &str, v: f64, kind: usize, what: &str) -> Result<(), String> {
+    let x = parse_tok(t)?;
+    let ok = if v.is_nan() { x.is_nan() }
+        else if v.is_infinite() { x == v }
+        else {
+            match kind {
+                0 => (x - v).abs() <= 0.0500001 * v.abs() || (x.is_infinite() && v.abs() > 1.7e308 && x.signum() == v.signum()),
+                1 => (x - v).abs() <= f64::max(0.00050001, v.abs() * 1e-15),
+                2 => (x - v).abs() <= f64::max(0.050001, v.abs() * 1e-15),
+                _ => x.to_bits() == v.to_bits() || x == v,
+            }
+        };
+    if ok { Ok(()) } else { Err(format!("{} is shown as {} but the settings hold {:e}", what, t, v)) }
+}
+fn shows_bool(t: &str, v: bool, what: &str) -> Result<(), String> {
+    if (t == "on") == v && (t == "on" || t == "false") { Ok(()) } else { Err(format!("{} is shown as `{}` but the settings hold {}", what, t, v)) }
+}
+fn shows_nat(t: &str, v: usize, what: &str) -> Result<(), String> {
+    if t.parse::<usize>() == Ok(v) { Ok(()) } else { Err(format!("{} is shown as `{}` but the solver holds {}", what, t, v)) }
+}
+
+/// the property, stated on the header text alone: every figure shown is the figure the solver holds
+fn check_header_text(text: &str, r: &Req) -> Result<(), String> {
+    let verbose = r.b("verbose");
+    if !verbose {
+        return if text.is_empty() { Ok(()) } else { Err("verbose = false but print_configuration wrote something".into()) };
+    }
+    let lines: Vec<&str> = text.split('\n').collect();
+    let mut k = 0;
+    let mut next = |k: &mut usize| -> Result<&str, String> {
+        let l = lines.get(*k).ok_or("header ends early")?;
+        *k += 1;
+        Ok(*l)
+    };
+    let mut l = next(&mut k)?;
+    if !l.is_empty() {
+        return Err(format!("header does not start with an empty line: `{}`", l));
+    }
+    l = next(&mut k)?;
+    // presolve line
+    let removed = r.str("removed");
+    if let Some(rest) = l.strip_prefix("presolve: removed ") {
+        if removed == "-" {
+            return Err("presolve line although no presolver exists".into());
+        }
+        shows_nat(rest.strip_suffix(" constraints").ok_or("presolve line tail")?, removed.parse().unwrap(), "presolver.count_reduced")?;
+        if !next(&mut k)?.is_empty() { return Err("no empty line after the presolve line".into()); }
+        l = next(&mut k)?;
+    } else if removed != "-" {
+        return Err(format!("the presolver removed {} rows but the header has no presolve line", removed));
+    }
+    // chordal block
+    let cc = r.str("chordalc");
+    let sb = r.bs("sb");
+    if l == "chordal decomposition:" {
+        if cc == "-" {
+            return Err("chordal block although the problem was not decomposed".into());
+        }
+        let c = r.us("chordalc");
+        let l1 = next(&mut k)?;
+        shows_bool(after(l1, "compact format = ")?, sb[4], "chordal_decomposition_compact")?;
+        shows_bool(after(l1, "dual completion = ")?, sb[5], "chordal_decomposition_complete_dual")?;
+        let l2 = next(&mut k)?;
+        if after(l2, "merge method = ")? != unhex(r.str("merge")) { return Err(format!("merge method line `{}`", l2)); }
+        for (label, want) in [("PSD cones initial             = ", c[0]), ("PSD cones decomposable        = ", c[1]),
+            ("PSD cones after decomposition = ", c[2]), ("PSD cones after merges        = ", c[3])] {
+            let li = next(&mut k)?;
+            shows_nat(after(li, label)?, want, label.trim())?;
+        }
+        if !next(&mut k)?.is_empty() { return Err("no empty line after the chordal block".into()); }
+        l = next(&mut k)?;
+    } else if cc != "-" {
+        return Err("the problem was decomposed but the header has no chordal block".into());
+    }
+    if l != "problem:" {
+        return Err(format!("expected `problem:`, found `{}`", l));
+    }
+    let tags = r.us("tags");
+    let numel = r.us("numel");
+    for (label, want) in [("  variables     = ", r.u("n")), ("  constraints   = ", r.u("m")), ("  nnz(P)        = ", r.u("nnzP")),
+        ("  nnz(A)        = ", r.u("nnzA")), ("  cones (total) = ", tags.len())] {
+        let li = next(&mut k)?;
+        if !li.starts_with(label) { return Err(format!("expected `{}…`, found `{}`", label, li)); }
+        shows_nat(&li[label.len()..], want, label.trim())?;
+    }
+    // cone lines: in tag order, one per type present
+    let names = ["Zero", "Nonnegative", "SecondOrder", "Exponential", "Power", "GenPower", "PSDTriangle"];
+    let mut total = 0;
+    let mut rows_total = 0;
+    for (t, name) in names.iter().enumerate() {
+        let mine: Vec<usize> = tags.iter().zip(&numel).filter(|(tt, _)| **tt == t).map(|(_, k)| *k).collect();
+        if mine.is_empty() { continue; }
+        let li = next(&mut k)?;
+        let head = format!("    : {:>11} = ", name);
+        if !li.starts_with(&head) { return Err(format!("expected the line of {} cones, found `{}`", name, li)); }
+        let count: usize = li[head.len()..].split(',').next().unwrap().trim().parse().map_err(|_| "cone count")?;
+        if count != mine.len() { return Err(format!("{}: count {} expected {}", name, count, mine.len())); }
+        total += count;
+        let nums: Vec<usize> = li.split("numel = ").nth(1).ok_or("numel")?
+            .trim().trim_matches(|c| c == '(' || c == ')').split(',').filter_map(|t| t.parse().ok()).collect();
+        let want: Vec<usize> = if mine.len() <= 5 { mine.clone() } else {
+            let mut w = mine[..4].to_vec(); w.push(*mine.last().unwrap()); w };
+        if nums != want { return Err(format!("{}: numel {:?} expected {:?}", name, nums, want)); }
+        if nums.len() > 5 { return Err("more than five dimensions listed".into()); }
+        if (mine.len() > 5) != li.contains("...") { return Err("elision marker".into()); }
+        rows_total += mine.iter().sum::<usize>();
+    }
+    if total != tags.len() { return Err(format!("per-type counts add up to {} but there are {} cones", total, tags.len())); }
+    if rows_total != r.u("m") { return Err(format!("cone dimensions add up to {} but m = {}", rows_total, r.u("m"))); }
+    if !next(&mut k)?.is_empty() { return Err("no empty line after the cone lines".into()); }
+    // settings echo
+    if next(&mut k)? != "settings:" { return Err("expected `settings:`".into()); }
+    let su = r.us("su");
+    let sf = r.fs("sf");
+    let lin = req_lin(r);
+    let l1 = next(&mut k)?;
+    let want_dir = if lin.direct { "direct" } else { "indirect" };
+    let la = l1.strip_prefix("  linear algebra: ").ok_or("linear algebra line")?;
+    let (dir, rest) = la.split_once(" / ").ok_or("linear algebra line")?;
+    if dir != want_dir { return Err(format!("solver class shown as `{}` but linsolver.direct = {}", dir, lin.direct)); }
+    let (name, rest) = rest.split_once(", precision: ").ok_or("precision")?;
+    if name != lin.name { return Err(format!("linear solver shown as `{}` but linsolver.name = `{}`", name, lin.name)); }
+    let want_tail = match lin.threads { 0 => "64 bit ".to_string(), 1 => "64 bit (1 thread)".to_string(), n => format!("64 bit ({} threads)", n) };
+    if rest != want_tail { return Err(format!("precision / threads shown as `{}` expected `{}`", rest, want_tail)); }
+    let l2 = next(&mut k)?;
+    shows_nat(after(l2, "max iter = ")?, su[0], "max_iter")?;
+    let tl = after(l2, "time limit = ")?;
+    if sf[0].is_infinite() { if tl != "Inf" { return Err(format!("infinite time limit shown as `{}`", tl)); } }
+    else { if tl == "Inf" { return Err("finite time limit shown as Inf".into()); } shows(tl, sf[0], 3, "time_limit")?; }
+    shows(after(l2, "max step = ")?, sf[1], 1, "max_step_fraction")?;
+    let l3 = next(&mut k)?;
+    shows(after(l3, "tol_feas = ")?, sf[2], 0, "tol_feas")?;
+    shows(after(l3, "tol_gap_abs = ")?, sf[3], 0, "tol_gap_abs")?;
+    shows(after(l3, "tol_gap_rel = ")?, sf[4], 0, "tol_gap_rel")?;
+    let l4 = next(&mut k)?;
+    shows_bool(after(l4, "static reg : ")?, sb[0], "static_regularization_enable")?;
+    shows(after(l4, "ϵ1 = ")?, sf[5], 0, "static_regularization_constant")?;
+    shows(after(l4, "ϵ2 = ")?, sf[6], 0, "static_regularization_proportional")?;
+    let l5 = next(&mut k)?;
+    shows_bool(after(l5, "dynamic reg: ")?, sb[1], "dynamic_regularization_enable")?;
+    shows(after(l5, "ϵ = ")?, sf[7], 0, "dynamic_regularization_eps")?;
+    shows(after(l5, "δ = ")?, sf[8], 0, "dynamic_regularization_delta")?;
+    let l6 = next(&mut k)?;
+    shows_bool(after(l6, "iter refine: ")?, sb[2], "iterative_refinement_enable")?;
+    shows(after(l6, "reltol = ")?, sf[9], 0, "iterative_refinement_reltol")?;
+    shows(after(l6, "abstol = ")?, sf[10], 0, "iterative_refinement_abstol")?;
+    let l7 = next(&mut k)?;
+    shows_nat(after(l7, "max iter = ")?, su[1], "iterative_refinement_max_iter")?;
+    shows(after(l7, "stop ratio = ")?, sf[11], 2, "iterative_refinement_stop_ratio")?;
+    let l8 = next(&mut k)?;
+    shows_bool(after(l8, "equilibrate: ")?, sb[3], "equilibrate_enable")?;
+    shows(after(l8, "min_scale = ")?, sf[12], 0, "equilibrate_min_scaling")?;
+    shows(after(l8, "max_scale = ")?, sf[13], 0, "equilibrate_max_scaling")?;
+    let l9 = next(&mut k)?;
+    shows_nat(after(l9, "max iter = ")?, su[2], "equilibrate_max_iter")?;
+    if !next(&mut k)?.is_empty() || !next(&mut k)?.is_empty() || k != lines.len() {
+        return Err("the header does not end with one empty line".into());
+    }
+    Ok(())
+}
+fn oracle_configuration(r: &Req, out: &str) -> Result<(), String> {
+    let text = unhex(out.strip_prefix("s=").ok_or_else(|| out.to_string())?);
+    check_header_text(&text, r)
+}
+
+// ---------------------------------------------------------------- print.status_header / print.footer_full
+
+fn run_status_header(r: &Req) -> String {
+    let mut i = DefaultInfo::<f64>::new();
+    i.print_to_buffer();
+    let mut s = DefaultSettings::<f64>::default();
+    s.verbose = r.b("verbose");
+    i.print_status_header(&s).unwrap();
+    format!("s={}", hex(&i.get_print_buffer().unwrap()))
+}
+fn run_footer_full(r: &Req) -> String {
+    let mut i = DefaultInfo::<f64>::new();
+    i.status = c04_status(r.str("status"));
+    i.solve_time = r.f("time");
+    i.print_to_buffer();
+    let mut s = DefaultSettings::<f64>::default();
+    s.verbose = r.b("verbose");
+    i.print_footer(&s).unwrap();
+    format!("s={}", hex(&i.get_print_buffer().unwrap()))
+}
+fn oracle_footer_full(r: &Req, out: &str) -> Result<(), String> {
+    let text = unhex(out.strip_prefix("s=").ok_or_else(|| out.to_string())?);
+    if !r.b("verbose") {
+        return if text.is_empty() { Ok(()) } else { Err("verbose = false but print_footer wrote something".into()) };
+    }
+    let lines: Vec<&str> = text.split('\n').collect();
+    if lines.len() != 4 || !lines[3].is_empty() || !lines[0].starts_with("-----") {
+        return Err(format!("footer has {} lines", lines.len()));
+    }
+    if lines[1].strip_prefix("Terminated with status = ") != Some(r.str("status")) {
+        return Err(format!("footer shows `{}` for status {}", lines[1], r.str("status")));
+    }
+    // the time is shown in s / ms / µs / ns with Duration's rounding: parse it back
+    let t = lines[2].strip_prefix("solve time = ").ok_or("no solve time line")?;
+    let (num, scale) = if let Some(x) = t.strip_suffix("ms") { (x, 1e-3) } else if let Some(x) = t.strip_suffix("µs") { (x, 1e-6) }
+        else if let Some(x) = t.strip_suffix("ns") { (x, 1e-9) } else if let Some(x) = t.strip_suffix('s') { (x, 1.0) } else { return Err(format!("unit of `{}`", t)) };
+    let shown = num.parse::<f64>().map_err(|_| format!("`{}`", t))? * scale;
+    let want = r.f("time");
+    if (shown - want).abs() > 1.0000001e-9 + want * 1e-12 {
+        return Err(format!("solve time shown as {} but info.solve_time = {:e}", t, want));
+    }
+    Ok(())
+}
+
+// ---------------------------------------------------------------- print.whole
+
+/// the settings of a whole solve: the c04 keys, overridden by the echoed fields, plus the engine
+fn line_fullsettings(l: Line, s: &DefaultSettings<f64>) -> Line {
+    line_settings(l, s).s("method", &hex(&s.direct_solve_method)).u("maxthreads", s.max_threads as usize)
+}
+fn req_fullsettings(r: &Req) -> DefaultSettings<f64> {
+    let mut s = req_settings(r);
+    apply_echo(r, &mut s);
+    s.direct_solve_method = unhex(r.str("method"));
+    s.max_threads = r.u("maxthreads") as u32;
+    s
+}
+fn mask_time_line(log: &str) -> String {
+    log.split_inclusive('\n').map(|l| if l.starts_with("solve time = ") { "solve time = <t>\n".to_string() } else { l.to_string() }).collect()
+}
+fn run_whole(r: &Req) -> String {
+    let p = req_prob(r);
+    let s = req_fullsettings(r);
+    let mut solver = DefaultSolver::new(&p.P, &p.q, &p.A, &p.b, &p.cones, s);
+    solver.print_to_buffer();
+    solver.solve();
+    let log = solver.get_print_buffer().unwrap();
+    format!("s={}", hex(&mask_time_line(&log)))
+}
+fn oracle_whole(r: &Req, out: &str) -> Result<(), String> {
+    let text = unhex(out.strip_prefix("s=").ok_or_else(|| out.to_string())?);
+    if !r.b("verbose") {
+        return if text.is_empty() { Ok(()) } else { Err("verbose = false but the solve wrote a log".into()) };
+    }
+    // banner (6 lines), then the configuration header up to the table header
+    let start = text.match_indices('\n').nth(5).map(|(i, _)| i + 1).ok_or("log shorter than the banner")?;
+    let end = text.find("iter    pcost").ok_or("no table header")?;
+    check_header_text(&text[start..end], r)
+}
+
+fn crate_version() -> String {
+    let toml = std::fs::read_to_string("/repo/Cargo.toml").unwrap_or_default();
+    toml.lines().skip_while(|l| l.trim() != "[package]").find_map(|l| l.trim().strip_prefix("version")
+        .and_then(|r| r.trim().strip_prefix('=')).map(|v| v.trim().trim_matches('"').to_string())).unwrap_or_default()
+}
+
+fn row_cells(cp: f64, cd: f64, gap: f64, rp: f64, rd: f64, kt: f64, mu: f64, step: f64) -> Vec<String> {
+    let f = verif_hooks_info::print::expformat_cost;
+    let g = verif_hooks_info::print::expformat_res;
+    vec![f(cp), f(cd), g(gap), g(rp), g(rd), g(kt), g(mu), verif_hooks_info::print::expformat_step(step)]
+}
+
+/// solve once with the observer on and build the request whose model side re-assembles the whole log
+/// from independent sources: the rows of pass k from the observer's snapshot of `info` at pass k, the
+/// last row from the returned `info`, the header from `solver.data` / `solver.settings`.
+fn whole_request(p: &Prob, st: &DefaultSettings<f64>) -> Option<String> {
+    let mut solver = DefaultSolver::new(&p.P, &p.q, &p.A, &p.b, &p.cones, st.clone());
+    solver.print_to_buffer();
+    clarabel::verif_hooks::observer::start();
+    let r = std::panic::catch_unwind(std::panic::AssertUnwindSafe(|| solver.solve()));
+    let passes = passes_of(&clarabel::verif_hooks::observer::take());
+    if r.is_err() {
+        return None;
+    }
+    let log = solver.get_print_buffer().unwrap();
+    let logrows = table_rows(&log);
+    let mut ri: Vec<usize> = vec![];
+    let mut rc: Vec<String> = vec![];
+    let i = &solver.info;
+    for (k, row) in logrows.iter().enumerate() {
+        let (it, cells) = if k < passes.len() && k + 1 < logrows.len() {
+            let q = &passes[k].snap;
+            (q.iterations as usize, row_cells(q.cost_primal, q.cost_dual, f64::min(q.gap_abs, q.gap_rel), q.res_primal,
+                q.res_dual, q.ktratio, q.mu, q.step_length))
+        } else if k + 1 == logrows.len() {
+            (i.iterations as usize, row_cells(i.cost_primal, i.cost_dual, f64::min(i.gap_abs, i.gap_rel), i.res_primal,
+                i.res_dual, i.ktratio, i.μ, i.step_length))
+        } else {
+            // a row between the last pass and the last row: taken from the log
+            let t: Vec<&str> = row.split_whitespace().collect();
+            if t.len() != 9 || t.iter().any(|x| x.contains("NaN") || x.contains("inf")) { return None; }
+            (t[0].parse().ok()?, t[1..].iter().map(|x| x.to_string()).collect())
+        };
+        ri.push(it);
+        rc.extend(cells.iter().map(|c| hex(c)));
+    }
+    let sm = summary_of(&solver);
+    let mut l = line_prob(Line::new("print.whole"), p).u("nextra", logrows.len().saturating_sub(passes.len()));
+    l = line_fullsettings(l, st);
+    l = line_echo(l, &solver.settings, &solver.info.linsolver);
+    l = line_fmt_table(l, &solver.settings, Some((0.0, "<t>".into())));
+    l = line_summary(l, &sm);
+    l = l.s("version", &hex(&crate_version())).us("ri", &ri).s("rc", &rc.join(","))
+        .s("fstatus", &format!("{:?}", solver.info.status)).f("time", 0.0).b("debug", cfg!(debug_assertions));
+    Some(l.done())
+}
+
+// ---------------------------------------------------------------- print.write_impl / print.target_kind
+
+#[derive(Default)]
+struct DevState {
+    got: Vec<u8>,
+    script: std::collections::VecDeque<i64>,
+    calls: Vec<usize>,
+    flushes: usize,
+}
+/// a user stream whose `write` answers from a script: `k ≥ 0` accepts `min(k, len)` bytes, `-1` is
+/// `Interrupted`, anything else an error; once the script is used up everything is accepted
+struct ScriptedDev(Arc<Mutex<DevState>>);
+impl Write for ScriptedDev {
+    fn write(&mut self, buf: &[u8]) -> std::io::Result<usize> {
+        let mut d = self.0.lock().unwrap();
+        d.calls.push(buf.len());
+        match d.script.pop_front() {
+            None => { d.got.extend_from_slice(buf); Ok(buf.len()) }
+            Some(k) if k >= 0 => { let k = (k as usize).min(buf.len()); d.got.extend_from_slice(&buf[..k]); Ok(k) }
+            Some(-1) => Err(std::io::Error::new(std::io::ErrorKind::Interrupted, "interrupted")),
+            Some(_) => Err(std::io::Error::new(std::io::ErrorKind::Other, "device error")),
+        }
+    }
+    fn flush(&mut self) -> std::io::Result<()> {
+        self.0.lock().unwrap().flushes += 1;
+        Ok(())
+    }
+}
+fn io_err(e: &std::io::Error) -> &'static str {
+    match e.kind() {
+        std::io::ErrorKind::Interrupted => "err:interrupted",
+        std::io::ErrorKind::WriteZero => "err:writeZero",
+        _ => "err:other",
+    }
+}
+fn parse_ops(s: &str) -> Vec<(char, Vec<u8>)> {
+    if s == "-" {
+        return vec![];
+    }
+    s.split(';').map(|t| if t == "f" { ('f', vec![]) } else { (t.as_bytes()[0] as char, unhexb(&t[2..])) }).collect()
+}
+fn run_write_impl(r: &Req) -> String {
+    let kind = r.str("target");
+    let script: std::collections::VecDeque<i64> = r.is("script").into_iter().collect();
+    let ops = parse_ops(r.str("ops"));
+    let mut info = DefaultInfo::<f64>::new();
+    let dev = Arc::new(Mutex::new(DevState { script, ..Default::default() }));
+    let path = format!("/tmp/c20-w-{}-{}.log", std::process::id(), FILE_NO.fetch_add(1, std::sync::atomic::Ordering::SeqCst));
+    match kind {
+        "buffer" => info.print_to_buffer(),
+        "stream" => info.print_to_stream(Box::new(ScriptedDev(dev.clone()))),
+        "file" => info.print_to_file(std::fs::File::create(&path).unwrap()),
+        "sink" => info.print_to_sink(),
+        _ => panic!("target"),
+    }
+    let mut res = vec![];
+    for (o, buf) in &ops {
+        let out = info.print_target();
+        res.push(match o {
+            'w' => match out.write(buf) { Ok(k) => format!("w{}", k), Err(e) => io_err(&e).to_string() },
+            'a' => match out.write_all(buf) { Ok(()) => "ok".to_string(), Err(e) => io_err(&e).to_string() },
+            _ => match out.flush() { Ok(()) => "ok".to_string(), Err(e) => io_err(&e).to_string() },
+        });
+    }
+    let got: Vec<u8> = match kind {
+        "buffer" => info.get_print_buffer().unwrap().into_bytes(),
+        "stream" => dev.lock().unwrap().got.clone(),
+        "file" => { info.print_to_sink(); let b = std::fs::read(&path).unwrap_or_default(); let _ = std::fs::remove_file(&path); b }
+        _ => vec![],
+    };
+    let base = format!("res={} got={}", res.join(","), hexb(&got));
+    if kind == "stream" {
+        let d = dev.lock().unwrap();
+        format!("{} calls={} flushes={} left={}", base, proto::fus(&d.calls), d.flushes, d.script.len())
+    } else { base }
+}
+/// every byte a successful call reports as written reaches the sink exactly once and in order
+fn oracle_write_impl(r: &Req, out: &str) -> Result<(), String> {
+    let kind = r.str("target");
+    let ops = parse_ops(r.str("ops"));
+    let res: Vec<&str> = field(out, "res").unwrap_or("").split(',').filter(|s| !s.is_empty()).collect();
+    let got = unhexb(field(out, "got").unwrap_or("-"));
+    if res.len() != ops.len() {
+        return Err(out.to_string());
+    }
+    if kind == "sink" {
+        return if got.is_empty() { Ok(()) } else { Err("a sink delivered bytes".into()) };
+    }
+    // the possible positions in `got` after each op (a failed write_all may have delivered any prefix)
+    let mut pos: Vec<usize> = vec![0];
+    for ((o, buf), rs) in ops.iter().zip(&res) {
+        let mut nextpos = vec![];
+        for &p in &pos {
+            let lens: Vec<usize> = match (*o, *rs) {
+                ('f', _) => vec![0],
+                ('w', x) if x.starts_with('w') => vec![x[1..].parse().map_err(|_| "count")?],
+                ('a', "ok") => vec![buf.len()],
+                ('a', _) => (0..=buf.len()).collect(),
+                _ => vec![0],
+            };
+            for k in lens {
+                if k <= buf.len() && p + k <= got.len() && got[p..p + k] == buf[..k] && !nextpos.contains(&(p + k)) {
+                    nextpos.push(p + k);
+                }
+            }
+        }
+        if nextpos.is_empty() {
+            return Err(format!("the bytes the sink holds are not the accepted bytes in order: {}", out));
+        }
+        pos = nextpos;
+    }
+    if !pos.contains(&got.len()) {
+        return Err(format!("the sink holds {} bytes, which the reported results do not account for", got.len()));
+    }
+    Ok(())
+}
+
+fn stream_field(dbg: &str) -> String {
+    dbg.rsplit("stream: ").next().unwrap_or("").trim_end_matches(|c| c == '}' || c == ' ' || c == ',').to_string()
+}
+fn run_target_kind(r: &Req) -> String {
+    let kind = r.str("target");
+    let pre = unhexb(r.str("pre"));
+    let mut info = DefaultInfo::<f64>::new();
+    let dev = Arc::new(Mutex::new(DevState::default()));
+    let path = format!("/tmp/c20-k-{}-{}.log", std::process::id(), FILE_NO.fetch_add(1, std::sync::atomic::Ordering::SeqCst));
+    match kind {
+        "buffer" => info.print_to_buffer(),
+        "stream" => info.print_to_stream(Box::new(ScriptedDev(dev.clone()))),
+        "file" => info.print_to_file(std::fs::File::create(&path).unwrap()),
+        "sink" => info.print_to_sink(),
+        "stdout" => info.print_to_stdout(),
+        _ => panic!("target"),
+    }
+    if kind != "stdout" {
+        info.print_target().write_all(&pre).unwrap();
+    }
+    let mut c = info.clone();
+    let ck = stream_field(&format!("{:?}", c));
+    if kind != "stdout" {
+        c.print_target().write_all(b"!").unwrap();
+    }
+    let cb = c.get_print_buffer().map(|s| hex(&s)).unwrap_or_else(|_| "-".into());
+    let ob = info.get_print_buffer().map(|s| hex(&s)).unwrap_or_else(|_| "-".into());
+    let k = stream_field(&format!("{:?}", info));
+    drop(c);
+    info.print_to_sink();
+    let _ = std::fs::remove_file(&path);
+    format!("kind={} clone={} clonebuf={} origbuf={}", k, ck, cb, ob)
+}
+
 fn channels() -> Vec<Channel> {
     vec![
         Channel { name: "print.exp_reformat", tol: Tol::Exact, run: run_exp_reformat, oracle: Some(oracle_exp_reformat),
@@ -475,6 +1107,21 @@ fn channels() -> Vec<Channel> {
             modelled: false, rust_fn: "io::PrintTarget (Write impl, print_to_*), print_configuration", lean: "C20.target_independent" },
         Channel { name: "print.stdout", tol: Tol::Exact, run: run_stdout, oracle: None,
             modelled: false, rust_fn: "io::PrintTarget::Stdout", lean: "C20.silent" },
+        Channel { name: "print.configuration", tol: Tol::Exact, run: run_configuration, oracle: Some(oracle_configuration),
+            modelled: true, rust_fn: "DefaultInfo::print_configuration, print_settings, print_nthreads, _get_precision_string, print_chordal_decomposition, _bool_on_off",
+            lean: "Print.printConfiguration (+ ProblemData.new, Summary.ofData) / C20.header_reports_data, C20.settings_echo_determines, C20.header_silent" },
+        Channel { name: "print.status_header", tol: Tol::Exact, run: run_status_header, oracle: None,
+            modelled: true, rust_fn: "DefaultInfo::print_status_header", lean: "Print.printStatusHeader / C20.log_silent" },
+        Channel { name: "print.footer_full", tol: Tol::Exact, run: run_footer_full, oracle: Some(oracle_footer_full),
+            modelled: true, rust_fn: "DefaultInfo::print_footer", lean: "Print.printFooter / C20.footer_status_injective" },
+        Channel { name: "print.whole", tol: Tol::Exact, run: run_whole, oracle: Some(oracle_whole),
+            modelled: true, rust_fn: "Solver::solve print call sites, _print_banner, print_configuration, print_status_header, print_status, print_footer",
+            lean: "Print.wholeLog / C20.whole_log_silent" },
+        Channel { name: "print.write_impl", tol: Tol::Exact, run: run_write_impl, oracle: Some(oracle_write_impl),
+            modelled: true, rust_fn: "io::PrintTarget::{write, flush} (Write impl, std write_all), print_to_*, InfoPrint::print_target",
+            lean: "Print.Target.run / C20.write_all_forwards, C20.write_target_independent" },
+        Channel { name: "print.target_kind", tol: Tol::Exact, run: run_target_kind, oracle: None,
+            modelled: true, rust_fn: "io::PrintTarget::{fmt, clone}", lean: "Print.Target.debugName / Print.Target.clone" },
     ]
 }
 
@@ -536,6 +1183,10 @@ fn settings(rng: &mut Rng) -> DefaultSettings<f64> {
 }
 
 fn generate(s: &mut Session) {
+    if std::env::var("C20_DEBUG_PANIC").is_ok() {
+        std::panic::set_hook(Box::new(|i| eprintln!("{}", i)));
+    }
+    generate_round3(s);
     // ---- exponent re-formatter -----------------------------------------------------------
     let fixed = ["1e5", "1e-5", "1.5e10", "1.5e-10", "-2.25e100", "2.25e-100", "+0.0000e0", "1e", "e", "e5", "e-", "e-5",
         "abc", "", "1.0", "1e-", "1.0e+5", "1ee5", "1e5e", "-1e-1", "NaN", "inf", "1e123456"];
@@ -632,6 +1283,275 @@ fn generate(s: &mut Session) {
             } else if !(lines.len() == 1 && lines[0].starts_with("done status=")) {
                 s.fail("print.stdout", line, out.clone(), "verbose = false but the child wrote to stdout".into());
             }
+        }
+    }
+}
+
+// ---------------------------------------------------------------- generators of round 3
+
+fn extreme_float(rng: &mut Rng) -> f64 {
+    match rng.below(16) {
+        0 => 0.0,
+        1 => -0.0,
+        2 => f64::MAX,
+        3 => f64::MIN_POSITIVE,
+        4 => 5e-324,
+        5 => 1e20,
+        6 => f64::INFINITY,
+        7 => f64::NEG_INFINITY,
+        8 => f64::NAN,
+        9 => 9.95e-9,   // rounds up to the next decade in `{:.1e}`
+        10 => 0.9995,   // rounds up to 1.000 in `{:.3}`
+        11 => -rng.logmag(-10.0, 10.0),
+        12 => rng.logmag(-300.0, 300.0),
+        13 => (rng.range(-100000, 100000) as f64) / 1000.0,
+        _ => rng.logmag(-12.0, 6.0),
+    }
+}
+
+/// any value in every echoed field (the unit channel does not solve)
+fn echo_settings_any(rng: &mut Rng) -> DefaultSettings<f64> {
+    let mut s = DefaultSettings::<f64>::default();
+    s.verbose = rng.bool(0.9);
+    let nat = |rng: &mut Rng| *rng.choose(&[0u32, 1, 2, 10, 200, 4294967295, 12345]);
+    s.max_iter = nat(rng);
+    s.iterative_refinement_max_iter = nat(rng);
+    s.equilibrate_max_iter = nat(rng);
+    s.static_regularization_enable = rng.bool(0.5);
+    s.dynamic_regularization_enable = rng.bool(0.5);
+    s.iterative_refinement_enable = rng.bool(0.5);
+    s.equilibrate_enable = rng.bool(0.5);
+    s.chordal_decomposition_compact = rng.bool(0.5);
+    s.chordal_decomposition_complete_dual = rng.bool(0.5);
+    s.chordal_decomposition_merge_method = rng.choose(&["clique_graph", "parent_child", "none"]).to_string();
+    if rng.bool(0.8) {
+        s.time_limit = *rng.choose(&[f64::INFINITY, 0.0, 1e20, f64::MAX, 1.5, 1e-3, 3600.0, f64::NEG_INFINITY, f64::NAN]);
+        s.max_step_fraction = extreme_float(rng);
+        s.tol_feas = extreme_float(rng);
+        s.tol_gap_abs = extreme_float(rng);
+        s.tol_gap_rel = extreme_float(rng);
+        s.static_regularization_constant = extreme_float(rng);
+        s.static_regularization_proportional = extreme_float(rng);
+        s.dynamic_regularization_eps = extreme_float(rng);
+        s.dynamic_regularization_delta = extreme_float(rng);
+        s.iterative_refinement_reltol = extreme_float(rng);
+        s.iterative_refinement_abstol = extreme_float(rng);
+        s.iterative_refinement_stop_ratio = extreme_float(rng);
+        s.equilibrate_min_scaling = extreme_float(rng);
+        s.equilibrate_max_scaling = extreme_float(rng);
+    }
+    s
+}
+fn rand_lin(rng: &mut Rng) -> LinearSolverInfo {
+    LinearSolverInfo { name: rng.choose(&["qdldl", "faer", "mkl", "x", "pardiso_panua"]).to_string(),
+        threads: *rng.choose(&[0usize, 1, 1, 2, 8, 1000]), direct: rng.bool(0.7), nnzA: 0, nnzL: 0 }
+}
+
+/// a cone list that need not be solvable: all seven kinds, none, many of one kind, singletons that
+/// `new_collapsed` folds into nonnegative cones
+fn header_cones(rng: &mut Rng) -> Vec<SupportedConeT<f64>> {
+    let count = *rng.choose(&[0usize, 1, 2, 3, 5, 6, 7, 9, 14]);
+    let kinds = *rng.choose(&["znqepgt", "q", "nq", "qe", "zq", "t", "znq", "pg", "e", "zn"]);
+    (0..count).map(|_| {
+        let k = kinds.as_bytes()[rng.below(kinds.len())] as char;
+        match k {
+            'z' => ZeroConeT(1 + rng.below(3)),
+            'n' => NonnegativeConeT(1 + rng.below(4)),
+            'q' => SecondOrderConeT(1 + rng.below(4)),
+            'e' => ExponentialConeT(),
+            'p' => PowerConeT(0.5),
+            'g' => GenPowerConeT(vec![0.5, 0.5], 1 + rng.below(2)),
+            _ => PSDTriangleConeT(1 + rng.below(4)),
+        }
+    }).collect()
+}
+fn header_problem(rng: &mut Rng) -> Prob {
+    let cones = header_cones(rng);
+    let m: usize = cones.iter().map(cone_nvars).sum();
+    let n = 1 + rng.below(4);
+    let dens = *rng.choose(&[0.0, 0.3, 0.7, 1.0]);
+    let A = gen::csc(rng, m, n, dens, Vals::SmallInt(3));
+    let P = match rng.below(4) {
+        0 => CscMatrix::zeros((n, n)),
+        1 => gen::csc(rng, n, n, 0.6, Vals::SmallInt(3)),   // not upper triangular: `to_triu` changes nnz(P)
+        _ => gen::csc_triu(rng, n, 0.5, true, Vals::SmallInt(3)),
+    };
+    let mut b = gen::vec_of(rng, m, Vals::Normal);
+    if rng.bool(0.6) {
+        for v in b.iter_mut() { if rng.bool(0.4) { *v = *rng.choose(&[1e20, 5e20, 9.999e19]); } }
+    }
+    let q = gen::vec_of(rng, n, Vals::Normal);
+    Prob { P, q, A, b, cones }
+}
+/// index of entry (i, j), i ≤ j, in the scaled upper triangle
+fn svec_index(i: usize, j: usize) -> usize { j * (j + 1) / 2 + i }
+/// `min 0  s.t.  2 I - Σ x_k E_k ⪰ 0` on a band pattern (plus some other cones): decomposable and solved in a few steps
+fn chordal_problem(rng: &mut Rng) -> Prob {
+    let nn = 4 + rng.below(5);
+    let band = 1 + rng.below(2);
+    let tri = nn * (nn + 1) / 2;
+    let mut entries: Vec<(usize, usize)> = vec![];
+    for j in 0..nn { for i in 0..=j { if j - i <= band && i != j { entries.push((i, j)); } } }
+    let n = entries.len();
+    let extra = rng.below(3);
+    let m = tri + extra;
+    // column k has one entry, in the row of entries[k]
+    let mut colptr = vec![0];
+    let mut rowval = vec![];
+    let mut nzval = vec![];
+    for (i, j) in &entries {
+        rowval.push(extra + svec_index(*i, *j));
+        nzval.push(1.0);
+        colptr.push(rowval.len());
+    }
+    let A = CscMatrix::new(m, n, colptr, rowval, nzval);
+    let mut b = vec![0.0; m];
+    for v in b.iter_mut().take(extra) { *v = 1.0; }
+    for d in 0..nn { b[extra + svec_index(d, d)] = 2.0; }
+    let mut cones = vec![];
+    if extra > 0 { cones.push(NonnegativeConeT(extra)); }
+    cones.push(PSDTriangleConeT(nn));
+    Prob { P: CscMatrix::zeros((n, n)), q: vec![0.0; n], A, b, cones }
+}
+
+/// settings a solve survives, with every branch of the echo reachable
+fn full_settings(rng: &mut Rng) -> DefaultSettings<f64> {
+    let mut s = DefaultSettings::<f64>::default();
+    s.verbose = rng.bool(0.85);
+    s.max_iter = *rng.choose(&[0u32, 1, 3, 200, 200, 200, 50]);
+    s.time_limit = *rng.choose(&[f64::INFINITY, f64::INFINITY, 0.0, 1e20, f64::MAX, 3600.0]);
+    s.max_step_fraction = *rng.choose(&[0.99, 0.9, 0.9995, 0.95]);
+    if rng.bool(0.3) {
+        s.tol_feas = *rng.choose(&[1e-8, 1e-6, 9.95e-9, 1e-14]);
+        s.tol_gap_abs = *rng.choose(&[1e-8, 1e-5, 0.0]);
+        s.tol_gap_rel = *rng.choose(&[1e-8, 1e-5, 0.0]);
+    }
+    s.static_regularization_enable = rng.bool(0.85);
+    s.static_regularization_constant = *rng.choose(&[1e-8, 1e-7, 1e-9]);
+    s.static_regularization_proportional = *rng.choose(&[f64::EPSILON * f64::EPSILON, 1e-30]);
+    s.dynamic_regularization_enable = rng.bool(0.8);
+    s.dynamic_regularization_eps = *rng.choose(&[1e-13, 1e-12]);
+    s.dynamic_regularization_delta = *rng.choose(&[2e-7, 1e-7]);
+    s.iterative_refinement_enable = rng.bool(0.8);
+    s.iterative_refinement_reltol = *rng.choose(&[1e-13, 1e-10]);
+    s.iterative_refinement_abstol = *rng.choose(&[1e-12, 1e-10]);
+    s.iterative_refinement_max_iter = *rng.choose(&[10u32, 0, 3]);
+    s.iterative_refinement_stop_ratio = *rng.choose(&[5.0, 2.0, 1.25]);
+    s.equilibrate_enable = rng.bool(0.8);
+    s.equilibrate_min_scaling = *rng.choose(&[1e-4, 1e-2]);
+    s.equilibrate_max_scaling = *rng.choose(&[1e4, 1e2]);
+    s.equilibrate_max_iter = *rng.choose(&[10u32, 0, 1]);
+    s.presolve_enable = rng.bool(0.8);
+    s.chordal_decomposition_enable = rng.bool(0.7);
+    s.chordal_decomposition_compact = rng.bool(0.5);
+    s.chordal_decomposition_complete_dual = rng.bool(0.5);
+    s.chordal_decomposition_merge_method = rng.choose(&["clique_graph", "parent_child", "none"]).to_string();
+    s.direct_solve_method = rng.choose(&["qdldl", "qdldl", "auto", "faer"]).to_string();
+    // a multi-threaded factorisation may differ in the last bits from run to run, and the log is
+    // compared with a second solve: more than one thread only for the single-threaded engine
+    s.max_threads = if s.direct_solve_method == "qdldl" { *rng.choose(&[0u32, 1, 2, 4]) } else { 1 };
+    s
+}
+
+fn rand_bytes(rng: &mut Rng) -> Vec<u8> {
+    let n = *rng.choose(&[0usize, 1, 2, 3, 5, 8, 13, 40]);
+    (0..n).map(|_| 32 + rng.below(95) as u8).collect()
+}
+
+fn generate_round3(s: &mut Session) {
+    // ---- configuration header, without solving ----------------------------------------------
+    let inf = clarabel::get_infinity();
+    for k in 0..s.budget(250, 6000) {
+        let mut rng = s.rng.fork();
+        let chordalish = k % 5 == 4;
+        let p = if chordalish { chordal_problem(&mut rng) } else { header_problem(&mut rng) };
+        let presolve = rng.bool(0.8);
+        let chordal = chordalish || rng.bool(0.3);
+        let solver = match std::panic::catch_unwind(std::panic::AssertUnwindSafe(|| setup_solver(&p, presolve, chordal))) {
+            Ok(x) => x,
+            Err(_) => { s.count("header-setup-panic"); continue; }
+        };
+        let sm = summary_of(&solver);
+        let set = echo_settings_any(&mut rng);
+        let lin = if rng.bool(0.3) { solver.info.linsolver.clone() } else { rand_lin(&mut rng) };
+        let mode = if sm.chordal.is_none() && rng.bool(0.8) { "data" } else { "summary" };
+        s.count(&format!("header-mode:{}", mode));
+        if sm.chordal.is_some() { s.count("header-chordal"); }
+        if sm.removed.is_some() { s.count("header-presolved"); }
+        if (0..7).any(|t| sm.tags.iter().filter(|x| **x == t).count() > 5) { s.count("header-elided"); }
+        if sm.tags.is_empty() { s.count("header-nocones"); }
+        let mut l = line_prob9(Line::new("print.configuration"), &p).b("presolve", presolve).b("chordal", chordal).f("inf", inf)
+            .s("mode", mode);
+        l = line_echo(l, &set, &lin);
+        l = line_fmt_table(l, &set, None);
+        l = line_summary(l, &sm);
+        s.submit(l.done());
+    }
+    // ---- table header / footer -------------------------------------------------------------------
+    for v in [true, false] {
+        s.submit(Line::new("print.status_header").b("verbose", v).done());
+    }
+    for st in ["Unsolved", "Solved", "PrimalInfeasible", "DualInfeasible", "AlmostSolved", "AlmostPrimalInfeasible",
+        "AlmostDualInfeasible", "MaxIterations", "MaxTime", "NumericalError", "InsufficientProgress"] {
+        for k in 0..s.budget(4, 40) {
+            let t = match k % 8 { 0 => 0.0, 1 => 1e-9, 2 => 1.5e-6, 3 => 2.5e-3, 4 => 1.0, 5 => 0.9999999995,
+                6 => s.rng.logmag(-9.0, 6.0).abs(), _ => s.rng.uniform(0.0, 100.0) };
+            let verbose = k % 4 != 3;
+            let set = DefaultSettings::<f64>::default();
+            let l = Line::new("print.footer_full").s("status", st).b("verbose", verbose).f("time", t);
+            let l = l.us("fk", &[4]).fs("fv", &[t]).s("ft", &hex(&fmt_kind(4, t)));
+            let _ = set;
+            s.submit(l.done());
+        }
+    }
+    // ---- whole logs ------------------------------------------------------------------------------
+    // corpus first: solves that end after an insufficient-progress rollback (one more row is printed)
+    let corpus: Vec<(Prob, DefaultSettings<f64>)> = if s.is_searching() { vec![] } else {
+        include_str!("c20_corpus.txt").lines().filter(|l| !l.trim().is_empty()).map(|l| {
+            let r = Req::parse(l).expect("corpus line");
+            (req_prob(&r), req_settings(&r))
+        }).collect()
+    };
+    let ncorpus = corpus.len();
+    for k in 0..ncorpus + s.budget(120, 3000) {
+        let mut rng = s.rng.fork();
+        let (p, st) = if k < ncorpus {
+            let (p, mut st) = corpus[k].clone();
+            st.verbose = true;
+            s.count("whole-corpus");
+            (p, st)
+        } else {
+            (if k % 4 == 3 { chordal_problem(&mut rng) } else { problem(&mut rng) }, full_settings(&mut rng))
+        };
+        match whole_request(&p, &st) {
+            Some(line) => {
+                if line.contains(" nextra=1 ") { s.count("whole-extra-row:1"); }
+                if line.contains(" nextra=2 ") { s.count("whole-extra-row:2"); }
+                let out = s.submit(line);
+                if k % 4 == 3 && out.contains(&hex("chordal decomposition:")) { s.count("whole-chordal"); }
+            }
+            None => s.count("whole-skipped"),
+        }
+    }
+    // ---- the Write impl ----------------------------------------------------------------------------
+    for _ in 0..s.budget(400, 10000) {
+        let kind = *s.rng.choose(&["stream", "stream", "stream", "buffer", "file", "sink"]);
+        let script: Vec<i64> = if kind == "stream" {
+            let n = s.rng.below(7);
+            (0..n).map(|_| *s.rng.choose(&[1i64, 1, 2, 3, 7, 64, 1000, -1, -1, 0, -2])).collect()
+        } else { vec![] };
+        let nops = s.rng.below(6);
+        let ops: Vec<String> = (0..nops).map(|_| {
+            let b = rand_bytes(&mut s.rng);
+            match s.rng.below(8) { 0 => "f".to_string(), 1 | 2 => format!("w:{}", hexb(&b)), _ => format!("a:{}", hexb(&b)) }
+        }).collect();
+        let ops = if ops.is_empty() { "-".to_string() } else { ops.join(";") };
+        s.submit(Line::new("print.write_impl").s("target", kind).is("script", &script).s("ops", &ops).done());
+    }
+    for kind in ["buffer", "stream", "file", "sink", "stdout"] {
+        for _ in 0..3 {
+            let b = rand_bytes(&mut s.rng);
+            s.submit(Line::new("print.target_kind").s("target", kind).s("pre", &hexb(&b)).done());
         }
     }
 }
